@@ -1695,3 +1695,96 @@ def byte_container_lemmas(F, rep, rule="L-bytes", ktypes=None):
                     expect_bits(rep, rule, key, kt.storage_of(r), lanes(pos), "%s::%s::<%s>%s = the K base bytes at %d..%d" % (
                         cont.split("<")[0], meth, kty, "(%d)" % pos if meth == "get_kmer" else "()", pos, pos + K))
                 guarded(rep, rule, key, meth, f)
+
+
+# ----------------------------------------------------------------------------------------------------------------------
+# Order / equality of DnaString as the order / equality of the base sequences (C14): decided on structured operand pairs with
+# symbolic content — common prefix p (symbolic), then either one operand ends (proper prefix) or the operands differ at one base
+# (concrete u < v) followed by arbitrary symbolic suffixes.  Whatever implements Ord / PartialEq (derive or hand-written) is interpreted.
+def dnastring_order_lemmas(F, rep, rule="C14.4"):
+    try:
+        dt = DnaT(F)
+    except Unsupported as e:
+        rep.violated(rule, "DnaString", str(e), witness={"kind": "anchor-missing"})
+        return
+    ORDN = "std::cmp::Ordering"
+
+    def build(n, spec):
+        """spec: list of (kind, payload) per base: ('sym', (src, idx)) or ('const', value)"""
+        nw = (n + 31) // 32
+        ws = [[ZERO] * 64 for _ in range(nw)]
+        for i, (kind, pl) in enumerate(spec):
+            w, hi, lo = i // 32, 63 - 2 * (i % 32), 62 - 2 * (i % 32)
+            if kind == "sym":
+                ws[w][hi], ws[w][lo] = var(pl[0], 2 * pl[1] + 1), var(pl[0], 2 * pl[1])
+            else:
+                ws[w][hi], ws[w][lo] = (ONE if pl & 2 else ZERO), (ONE if pl & 1 else ZERO)
+        return dt.mk(ws, n)
+
+    def body_for(trait, meth):
+        for k, b in F.fns.items():
+            if k == "<dna_string::DnaString as %s>::%s" % (trait, meth):
+                return b
+        return None
+    cmp_b = body_for("std::cmp::Ord", "cmp")
+    pcmp_b = body_for("std::cmp::PartialOrd", "partial_cmp")
+    eq_b = body_for("std::cmp::PartialEq", "eq")
+    if cmp_b is None or eq_b is None:
+        rep.violated(rule, "order/anchors", "anchor-missing: Ord::cmp / PartialEq::eq of DnaString", witness={"kind": "anchor-missing"})
+        return
+    cases = []
+    for np in (0, 1, 5, 31, 32, 33, 64):
+        P = [("sym", ("p", i)) for i in range(np)]
+        # equal strings
+        cases.append(("equal/len=%d" % np, P, P, 0))
+        # proper prefix: b = a ++ extra (extra bases constant A, constant C…, or symbolic)
+        for extra in ([("const", 0)], [("const", 0)] * 2, [("const", 1)], [("const", 3)], [("const", 0)] * 32, [("const", 0)] * 33, [("const", 0), ("const", 2)]):
+            cases.append(("prefix/len=%d/extra=%s" % (np, "".join("ACGT"[e[1]] if e[0] == "const" else "?" for e in extra[:3]) + ("…" if len(extra) > 3 else "")), P, P + extra, -1))
+        # first difference at position np: u < v, then arbitrary (possibly different-length) suffixes
+        for (u, v) in ((0, 1), (1, 2), (2, 3), (0, 3)):
+            for sa, sb in ((0, 0), (3, 0), (0, 3), (2, 40)):
+                A = P + [("const", u)] + [("sym", ("a", i)) for i in range(sa)]
+                B = P + [("const", v)] + [("sym", ("b", i)) for i in range(sb)]
+                cases.append(("diff/len=%d/%s<%s/suffixes=%d,%d" % (np, "ACGT"[u], "ACGT"[v], sa, sb), A, B, -1))
+    bad, inc = [], []
+    n_ok = 0
+    for name, A, B, want in cases:
+        for swap in (False, True):
+            X, Y, w = (B, A, -want) if swap else (A, B, want)
+            rep.evaluations += 1
+            try:
+                a, b = build(len(X), X), build(len(Y), Y)
+                it = Interp(F, False, Harness())
+                o = it.call_body(cmp_b, [Ref(Cell(a, "a")), Ref(Cell(b, "b"))])
+                e = Interp(F, False, Harness()).call_body(eq_b, [Ref(Cell(a, "a")), Ref(Cell(b, "b"))])
+                po = Interp(F, False, Harness()).call_body(pcmp_b, [Ref(Cell(a, "a")), Ref(Cell(b, "b"))]) if pcmp_b is not None else None
+            except (Undecided, Unsupported) as ex:
+                inc.append("%s: %s" % (name, ex))
+                continue
+            except Diverge as ex:
+                bad.append("%s: comparison diverges: %s" % (name, ex))
+                continue
+            got = o.variant - 1 if isinstance(o, Adt) and o.variant is not None else None
+            goteq = bool(e.val) if isinstance(e, Int) and e.is_conc() else None
+            gotp = None
+            if isinstance(po, Adt) and po.variant == 1 and isinstance(po.fields[0], Adt) and po.fields[0].variant is not None:
+                gotp = po.fields[0].variant - 1
+            tag = name + ("/swapped" if swap else "")
+            if got is None or goteq is None:
+                inc.append("%s: cmp returned %r, eq returned %r" % (tag, o, e))
+            elif got != w:
+                bad.append("%s: cmp is %s, the base sequences compare %s (lexicographic A<C<G<T, a proper prefix first)" % (
+                    tag, {-1: "Less", 0: "Equal", 1: "Greater"}[got], {-1: "Less", 0: "Equal", 1: "Greater"}[w]))
+            elif goteq != (w == 0):
+                bad.append("%s: == is %s although the base sequences are %s" % (tag, goteq, "equal" if w == 0 else "different"))
+            elif pcmp_b is not None and gotp is not None and gotp != w:
+                bad.append("%s: partial_cmp disagrees with cmp" % tag)
+            else:
+                n_ok += 1
+    if bad:
+        rep.violated(rule, "order/table", "DnaString ordering / equality: %s" % bad[0], site=F.site(cmp_b, cmp_b["line"]), witness={"kind": "row", "count": len(bad), "rows": bad[:6]})
+    elif inc:
+        rep.inconclusive(rule, "order/table", "DnaString ordering / equality: %s" % inc[0])
+    else:
+        rep.holds(rule, "order/table", "cmp / partial_cmp / == of DnaString agree with the base sequences on %d structured operand pairs (symbolic common prefix of 0..64 bases; "
+                  "equal, proper-prefix with constant continuations incl. all-A, first difference u < v with symbolic suffixes; both argument orders)" % n_ok)
